@@ -198,6 +198,20 @@ fn main() {
             let i: u64 = a(4).parse().unwrap_or(0);
             println!("{}", c.gen(i, rng::run_seed(seed, c.id(), i), tier_of(a(3))));
         }
+        "gen-range" => {
+            // debugging aid: labels of the scenarios lo..hi whose label contains a(6)
+            let c = make_check(a(2));
+            let seed = core::env_u64("VERIF_SEED", 1);
+            let lo: u64 = a(4).parse().unwrap_or(0);
+            let hi: u64 = a(5).parse().unwrap_or(0);
+            for i in lo..hi {
+                let sc = c.gen(i, rng::run_seed(seed, c.id(), i), tier_of(a(3)));
+                let l = sc["label"].as_str().unwrap_or("").to_string();
+                if l.contains(a(6)) {
+                    println!("{} {} kind={} entry={} number={} fault={}", i, l, sc["kind"], sc["entry"], sc["number"], sc["fault"]);
+                }
+            }
+        }
         "selftest-supervisor" => std::process::exit(core::selftest_supervisor()),
         "replay" => {
             let txt = std::fs::read_to_string(a(2)).unwrap_or_default();
